@@ -124,6 +124,11 @@ pub struct EmitFileCase {
 	pub names: Vec<String>,
 	/// "file" or "stdio"
 	pub stdio: bool,
+	/// --on-busy-update=queue with a command that keeps running for 0.6 s after storing what it was handed:
+	/// every file is created while the previous run is still under way, so the run that is handed it is a
+	/// *queued* one
+	#[serde(default)]
+	pub queue: bool,
 }
 
 fn run_emit_file(c: &EmitFileCase) -> Outcome {
@@ -141,6 +146,7 @@ fn run_emit_file(c: &EmitFileCase) -> Outcome {
 	} else {
 		format!("n=$(ls {0} | wc -l); cp \"$WATCHEXEC_EVENTS_FILE\" {0}/$n.tmp; mv {0}/$n.tmp {0}/$n", out.display())
 	};
+	let script = if c.queue { format!("{script}; sleep 0.6") } else { script };
 	let mut child = match std::process::Command::new(super::c18::wx_path())
 		.current_dir(&root)
 		.env("HOME", &root)
@@ -148,6 +154,7 @@ fn run_emit_file(c: &EmitFileCase) -> Outcome {
 		.arg("-w")
 		.arg(&watched)
 		.arg("--debounce=60ms")
+		.arg(if c.queue { "--on-busy-update=queue" } else { "--on-busy-update=do-nothing" })
 		.arg(format!("--emit-events-to={}", if c.stdio { "stdio" } else { "file" }))
 		.arg("--shell=sh")
 		.arg("--")
@@ -201,6 +208,9 @@ fn run_emit_file(c: &EmitFileCase) -> Outcome {
 	if o.nontrivial {
 		o.label("later-batch-shorter");
 	}
+	if c.queue {
+		o.label("queued-runs");
+	}
 	// every stored hand-over: each line is "<kind>:<path>" and names only the file touched in that round
 	let total = runs(&out);
 	let dump = |k: usize, text: &str| format!("run {k} was handed {text:?}\ncase {c:?}\nfiles touched per round (first run index, path): {expect:?}");
@@ -219,6 +229,17 @@ fn run_emit_file(c: &EmitFileCase) -> Outcome {
 		}
 		if !text.is_empty() && !text.ends_with('\n') {
 			o.fail("emit-file:line-not-from-this-batch", format!("the text does not end with a newline\n{}", dump(k, &text)));
+			return o;
+		}
+	}
+	// the run caused by a round's change (the first one after it) is handed that change
+	for (first, path) in &expect {
+		if *first >= total {
+			continue;
+		}
+		let text = std::fs::read_to_string(out.join(first.to_string())).unwrap_or_default();
+		if !text.lines().any(|l| l.split_once(':').map_or(false, |(_, p)| p == path)) {
+			o.fail("emit-file:run-not-handed-the-change-that-caused-it", format!("run {first} was caused by the creation of {path:?} but no line it was handed names that path\n{}", dump(*first, &text)));
 			return o;
 		}
 	}
@@ -241,11 +262,11 @@ pub fn check(e: &Engine) {
 		LegOpts::realtime(
 			e.tier.pick(12, 200),
 			6,
-			"the real CLI with --emit-events-to=file (or stdio) running a command that stores what it is handed; 2-4 files with names of very different lengths are created one per round, so that later batches are shorter than earlier ones: every line handed to every run is '<kind>:<path>' for the file of that round, nothing is left over from an earlier batch; non-trivial = some batch is shorter than the one before",
+			"the real CLI with --emit-events-to=file (or stdio) running a command that stores what it is handed; 2-4 files with names of very different lengths are created one per round, so that later batches are shorter than earlier ones: every line handed to every run is '<kind>:<path>' for the file of that round, nothing is left over from an earlier batch, and the first run after each creation is handed a line naming that file; in half of the cases with --on-busy-update=queue and a command that keeps running for 0.6 s, so that every file is created while the previous run is under way and the run that is handed it is a queued one; non-trivial = some batch is shorter than the one before",
 		),
 		&|| {
-			(proptest::collection::vec(prop_oneof![Just("b".to_string()), Just("file_with_a_rather_long_name_".to_string()), Just("mid_name_".to_string()), Just("x".repeat(60))], 2..5), any::<bool>())
-				.prop_map(|(names, stdio)| EmitFileCase { names, stdio })
+			(proptest::collection::vec(prop_oneof![Just("b".to_string()), Just("file_with_a_rather_long_name_".to_string()), Just("mid_name_".to_string()), Just("x".repeat(60))], 2..5), any::<bool>(), any::<bool>())
+				.prop_map(|(names, stdio, queue)| EmitFileCase { names, stdio, queue })
 				.boxed()
 		},
 		&run_emit_file,
